@@ -80,8 +80,11 @@ func (d DSpec) Base() (kind, base string) {
 		return d.Type, ""
 	case d.Type == "cmp:num" || d.Type == "cmp:str":
 		return "cmp", ""
-	case d.Type == "vl:str" || d.Type == "vl:i32":
-		return "vl", ""
+	case len(d.Type) > 3 && d.Type[:3] == "vl:":
+		if _, ok := vlTypes[d.Type]; ok {
+			return "vl", ""
+		}
+		return "num", d.Type // unknown: rejected by Valid
 	}
 	return "num", d.Type
 }
@@ -205,10 +208,7 @@ func (d DSpec) Create(fw *hdf5.FileWriter, path string) (*hdf5.DatasetWriter, er
 		dt = hdf5.Opaque
 		opts = append(opts, hdf5.WithOpaqueTag(d.OpaqueTag, uint32(d.OpaqueLen)))
 	case "vl":
-		dt = hdf5.VLenString
-		if d.Type == "vl:i32" {
-			dt = hdf5.VLenInt32
-		}
+		dt = vlTypes[d.Type].dt
 	default:
 		dt = hdf5.Datatype(9999)
 	}
@@ -263,6 +263,15 @@ var (
 	optMu    sync.Mutex
 	optCache = map[string]hdf5.DatasetOption{}
 )
+
+// vlTypes: the variable-length dataset types of the write API (element size 0 = string).
+var vlTypes = map[string]struct {
+	dt   hdf5.Datatype
+	elem int
+}{
+	"vl:str": {hdf5.VLenString, 0}, "vl:i32": {hdf5.VLenInt32, 4}, "vl:i64": {hdf5.VLenInt64, 8}, "vl:u32": {hdf5.VLenUint32, 4},
+	"vl:u64": {hdf5.VLenUint64, 8}, "vl:f32": {hdf5.VLenFloat32, 4}, "vl:f64": {hdf5.VLenFloat64, 8},
+}
 
 // ---- values -----------------------------------------------------------------------------------
 
@@ -566,8 +575,8 @@ func (d DSpec) VLData(dims []uint64, seed int) (goVal any, elems [][]byte) {
 		if mix(seed, i+999)%4 != 0 && l > 200 {
 			l = int(mix(seed, i) % 64) // large elements are the minority
 		}
-		if d.Type == "vl:i32" {
-			l = l / 4 * 4
+		if es := vlTypes[d.Type].elem; es > 0 {
+			l = l / es * es
 		}
 		b := make([]byte, l)
 		for j := range b {
@@ -575,12 +584,60 @@ func (d DSpec) VLData(dims []uint64, seed int) (goVal any, elems [][]byte) {
 		}
 		elems[i] = b
 	}
-	if d.Type == "vl:i32" {
+	le32 := func(e []byte, j int) uint32 { return binary.LittleEndian.Uint32(e[j*4:]) }
+	le64 := func(e []byte, j int) uint64 { return binary.LittleEndian.Uint64(e[j*8:]) }
+	switch d.Type {
+	case "vl:i32":
 		v := make([][]int32, n)
 		for i, e := range elems {
 			v[i] = make([]int32, len(e)/4)
 			for j := range v[i] {
-				v[i][j] = int32(binary.LittleEndian.Uint32(e[j*4:]))
+				v[i][j] = int32(le32(e, j))
+			}
+		}
+		return v, elems
+	case "vl:u32":
+		v := make([][]uint32, n)
+		for i, e := range elems {
+			v[i] = make([]uint32, len(e)/4)
+			for j := range v[i] {
+				v[i][j] = le32(e, j)
+			}
+		}
+		return v, elems
+	case "vl:f32":
+		v := make([][]float32, n)
+		for i, e := range elems {
+			v[i] = make([]float32, len(e)/4)
+			for j := range v[i] {
+				v[i][j] = math.Float32frombits(le32(e, j))
+			}
+		}
+		return v, elems
+	case "vl:i64":
+		v := make([][]int64, n)
+		for i, e := range elems {
+			v[i] = make([]int64, len(e)/8)
+			for j := range v[i] {
+				v[i][j] = int64(le64(e, j))
+			}
+		}
+		return v, elems
+	case "vl:u64":
+		v := make([][]uint64, n)
+		for i, e := range elems {
+			v[i] = make([]uint64, len(e)/8)
+			for j := range v[i] {
+				v[i][j] = le64(e, j)
+			}
+		}
+		return v, elems
+	case "vl:f64":
+		v := make([][]float64, n)
+		for i, e := range elems {
+			v[i] = make([]float64, len(e)/8)
+			for j := range v[i] {
+				v[i][j] = math.Float64frombits(le64(e, j))
 			}
 		}
 		return v, elems
